@@ -319,4 +319,137 @@ theorem float32_double_rounding :
     stdPrim (.float 32) (.num "16777217.0000000005".toList) = .ok (.flt 16777218 1) ∧
     fillPrim false (.float 32) (.num "16777217.0000000005".toList) = .ok (.flt 16777218 1) := by decide
 
+
+/-! ### round 4 — fresh cells per entry (no aliasing), options fresh per call, end-to-end composition -/
+
+theorem entryCells_perEntry_addrs (next : Nat) (ks : List Str) :
+    (entryCells .perEntry next ks).map (·.2) = List.range' next ks.length := by
+  induction ks generalizing next with
+  | nil => rfl
+  | cons k ks ih => simp [entryCells, ih, List.range'_succ]
+
+/-- **No two distinct entries of a decoded map / slice alias the same cell**: with the allocation discipline of the
+code that exists (`genMapSite = fillSliceSite = .perEntry`, tied by `tie_genMapAlloc`, `tie_mFillSlice`,
+`tie_mFillSliceValue`, `tie_mFillStructElement`) the cells handed to the entries of one container are pairwise
+distinct, for every container and every allocator state. -/
+theorem fresh_cells_no_alias (next : Nat) (ks : List Str) :
+    ((entryCells genMapSite next ks).map (·.2)).Nodup ∧ ((entryCells fillSliceSite next ks).map (·.2)).Nodup := by
+  simp only [genMapSite, fillSliceSite, entryCells_perEntry_addrs]
+  exact ⟨List.nodup_range', List.nodup_range'⟩
+
+example : (entryCells genMapSite 7 ["a".toList, "b".toList, "c".toList]).map (·.2) = [7, 8, 9] := by decide
+
+/-- **Witness for seeded change C17-5**: a scratch cell hoisted out of the loop is shared by every entry. -/
+theorem hoisted_cells_alias (next : Nat) (ks : List Str) : ∀ p ∈ entryCells .hoisted next ks, p.2 = next := by
+  induction ks with
+  | nil => intro p h; simp [entryCells] at h
+  | cons k ks ih =>
+    intro p h
+    simp only [entryCells, List.mem_cons] at h
+    cases h with
+    | inl h => rw [h]
+    | inr h => exact ih p h
+
+example : (entryCells .hoisted 7 ["a".toList, "b".toList]).map (·.2) = [7, 7] := by decide
+
+theorem genMap_null (o : Opts) (t : Ty) (k : Str) (rest : JM) : ∃ e, genMap o t (.cons k .null rest) = .error e := by
+  rw [genMap.eq_def]
+  cases t with
+  | ptr t' => cases t' <;> exact ⟨_, rfl⟩
+  | _ => exact ⟨_, rfl⟩
+
+/-- **Every entry of a decoded map is the decoding of ITS OWN document value** (the value-level face of "a fresh
+element per key"): whatever the other entries are, the value stored under `k` is `gzMapElem` of the document value
+found under `k` (first match — faithful for documents without repeated keys). -/
+theorem genMap_pointwise (o : Opts) (t : Ty) : ∀ (m : JM) (vm : VM), genMap o t m = .ok vm →
+    ∀ k x, m.get? k = some x → ∃ v, gzMapElem o t x = .ok v ∧ vm.get? k = some v
+  | .nil, _, _, k, x, hg => by simp [JM.get?] at hg
+  | .cons k0 x0 r, vm, h, k, x, hg => by
+    by_cases hn : x0 = .null
+    · subst hn
+      obtain ⟨e, he⟩ := genMap_null o t k0 r
+      rw [he] at h; cases h
+    · rw [genMap_cons o t k0 x0 r hn] at h
+      simp only [R.bind_ok, R.pure_ok] at h
+      obtain ⟨v0, hv0, vs, hvs, rfl⟩ := h
+      by_cases hk : k0 = k
+      · simp only [JM.get?, hk, if_true, Option.some.injEq] at hg
+        subst hg
+        exact ⟨v0, hv0, by simp [VM.get?, hk]⟩
+      · simp only [JM.get?, hk, if_false] at hg
+        obtain ⟨v, hv, hget⟩ := genMap_pointwise o t r vs hvs k x hg
+        exact ⟨v, hv, by simp [VM.get?, hk, hget]⟩
+
+/-- `map[string]*int` with `{"a":1,"b":2}`: two entries, two values (seeded C17-5 gave `&2,&2` or `&1,&1`). -/
+example : genMap {} (.ptr (.prim (.int 64))) (.cons "a".toList (.num "1".toList) (.cons "b".toList (.num "2".toList) .nil))
+    = .ok (.cons "a".toList (.ptr (.int 1)) (.cons "b".toList (.ptr (.int 2)) .nil)) := by
+  c17_eval
+
+theorem foldl_apply_env (opts : List ConfOption) : ∀ (st : ConfOptions), st.env = true →
+    (opts.foldl (fun acc o => o.apply acc) st).env = true := by
+  induction opts with
+  | nil => intro st h; exact h
+  | cons o os ih => intro st _; exact ih _ rfl
+
+/-- **The options of a `conf.Load` call are the options of THIS call**: the record starts from the zero value. -/
+theorem conf_options_fresh (opts : List ConfOption) : (buildOptions opts).env = !opts.isEmpty := by
+  cases opts with
+  | nil => rfl
+  | cons o os => simp only [buildOptions, List.foldl_cons, List.isEmpty_cons, Bool.not_false]; exact foldl_apply_env os _ rfl
+
+/-- **Environment variables are expanded only when requested, in every sequence of loads in one process**: what a
+call hands to its loader depends on its own options only, whatever was loaded before with whatever options. -/
+theorem load_sequence_independent (expand : Str → Str) (calls : List (List ConfOption × Str)) :
+    loadSeq expand calls = calls.map fun c => loadContent expand (!c.1.isEmpty) c.2 := by
+  induction calls with
+  | nil => rfl
+  | cons c rest ih =>
+    obtain ⟨opts, content⟩ := c
+    simp only [loadSeq, List.map_cons, ih, conf_options_fresh, loadContent]
+
+/-- **Witness for seeded change C17-4**: with an option record that outlives the call, `UseEnv()` of the first load
+expands the second load's content although it was loaded without `UseEnv()`. -/
+theorem shared_options_sticky (expand : Str → Str) (c1 c2 : Str) :
+    loadSeqShared expand {} [([.useEnv], c1), ([], c2)] = [expand c1, expand c2] ∧
+    loadSeq expand [([.useEnv], c1), ([], c2)] = [expand c1, c2] := ⟨rfl, rfl⟩
+
+example : loadSeq (fun _ => "X".toList) [([.useEnv], "$A".toList), ([], "$A".toList), ([.useEnv], "$B".toList)]
+    = ["X".toList, "$A".toList, "X".toList] := by decide
+
+/-- **End to end, file level** (`conf.Load` → loader of the extension → `LoadFromJsonBytes`): two files holding the
+renderings of one document (no null) in the formats of their extensions load to the same verdict and value, for every
+pair of recognised extensions (any case), every type of the family and every environment. -/
+theorem file_load_format_independent (o : Opts) (fs : Fields) (d : J) (t : T) (hd : plainDoc d = true)
+    (ht : embT d = some t) (e1 e2 : Str) (f1 f2 : Fmt) (h1 : loaderOf e1 = some f1) (h2 : loaderOf e2 = some f2)
+    (expand : Str → Str) (run : Fmt → Str → R Val) (c1 c2 : Str)
+    (hr1 : run f1 c1 = loadFmtO o fs d t f1) (hr2 : run f2 c2 = loadFmtO o fs d t f2) :
+    confLoad expand false e1 run c1 = confLoad expand false e2 run c2 := by
+  have a := formats_agree_env o fs d t hd ht
+  have all : ∀ f, loadFmtO o fs d t f = loadJsonO o fs d := by
+    intro f; cases f
+    · rfl
+    · exact a.1
+    · exact a.2
+  simp only [confLoad, h1, h2, loadContent, if_false, Bool.false_eq_true, hr1, hr2, all]
+
+example : loaderOf ".YAML".toList = some .yaml ∧ loaderOf ".toml".toList = some .toml := by decide
+
+/-- **End to end, mapping level, against encoding/json** for the pointer element types of round 4:
+`struct{ M map[string]*int `json:"m"` }` — both decoders give two distinct cells with the two values. -/
+def ptrMapTy : Fields := .cons { name := "M".toList, key := "m".toList, optional := false, embedded := false } (.map (.ptr (.prim (.int 64)))) .nil
+def ptrMapDoc : J := .obj (.cons "m".toList (.obj (.cons "a".toList (.num "1".toList) (.cons "b".toList (.num "2".toList) .nil))) .nil)
+
+example : plainTy (.struct ptrMapTy) = true ∧ tyKeysDistinct (.struct ptrMapTy) = true ∧ tyKeysPlain (.struct ptrMapTy) = true ∧
+    plainDoc ptrMapDoc = true ∧ noCaseCollision ptrMapDoc = true := by decide
+
+theorem ptr_map_agrees_with_std :
+    stdDecode ptrMapTy ptrMapDoc = .ok (.struct (.cons "M".toList (.map (.cons "a".toList (.ptr (.int 1))
+      (.cons "b".toList (.ptr (.int 2)) .nil))) .nil)) ∧
+    unmarshalJson ptrMapTy ptrMapDoc = stdDecode ptrMapTy ptrMapDoc := by
+  refine ⟨by decide, ?_⟩
+  have h : stdDecode ptrMapTy ptrMapDoc = .ok (.struct (.cons "M".toList (.map (.cons "a".toList (.ptr (.int 1))
+      (.cons "b".toList (.ptr (.int 2)) .nil))) .nil)) := by decide
+  rw [h]
+  simp only [ptrMapTy, ptrMapDoc]; c17_eval
+
 end GoZero.C17
